@@ -246,7 +246,15 @@ def IndirectReadsBack (n g : Nat) (o : Obj) : Prop :=
   ∀ (len : ObjId → Option Int) (base : Nat) (rest : Bytes),
     pIndirect len none base (writeIndirect n g o ++ rest) = some ((n, g), .plain o)
 
-/-- **`load ∘ save` (table kind, C01 `file_rt` modulo the object-level round trips).** For every
+theorem Objects_get_mapval (objs : Objects) (f : Obj → Obj) (id : ObjId) :
+    Objects.get (objs.map fun p => (p.1, f p.2)) id = (objs.get id).map f := by
+  induction objs with
+  | nil => rfl
+  | cons p rest ih =>
+    obtain ⟨i, o⟩ := p
+    by_cases h : i = id <;> simp [Objects.get, h, ih]
+
+/-- general form (objects read back as `nf o`, the trailer as `tr'`) of: **`load ∘ save` (table kind, C01 `file_rt` modulo the object-level round trips).** For every
 well-formed document `d` saved plainly with a classic cross-reference table (file < 4 GiB,
 `max_id + 1 ≤ u32::MAX`, version text without line breaks and valid UTF-8, trailer without
 `Prev` / `Encrypt`), if the trailer dictionary and every object read back at the object level
@@ -254,80 +262,71 @@ well-formed document `d` saved plainly with a classic cross-reference table (fil
 on the saved bytes succeeds and returns the same version, binary mark and trailer (as `save`
 left it, `Size` included), `xref_start` = the offset the writer stored, `max_id ≤` the old one,
 and for EVERY object id exactly the object the document held (and nothing for other ids). -/
-theorem load_of_save_table_with (arr : List Block → List Block) (harr : arr [] = []) (d : SDoc) (out : Bytes) (d' : SDoc)
+theorem load_of_save_table_withN (arr : List Block → List Block) (harr : arr [] = []) (nf : Obj → Obj)
+    (hnf : ∀ o, NotObjStm o → NotObjStm (nf o)) (d : SDoc) (out : Bytes) (d' : SDoc) (tr' : Dict)
     (hk : d.xrefKind = .table) (h : saveFrom [] d = some (out, d')) (hlen : out.length < 4294967296)
     (hmax : d.maxId + 1 ≤ 4294967295) (hwf : DocWF d)
-    (hD : DictReadsBack d'.trailer (STARTXREF_KW ++ natDigits (bodyOf [] d).length ++ EOF_KW))
-    (hobj : ∀ p ∈ d.objects, IndirectReadsBack p.1.1 p.1.2 p.2)
+    (hD : DictReadsBackN d'.trailer tr' (STARTXREF_KW ++ natDigits (bodyOf [] d).length ++ EOF_KW))
+    (hsz : tr'.get SIZE = some (.int ((d.maxId + 1 : Nat) : Int)))
+    (hobj : ∀ p ∈ d.objects, ∀ (len : ObjId → Option Int) (base : Nat) (rest : Bytes),
+      pIndirect len none base (writeIndirect p.1.1 p.1.2 p.2 ++ rest) = some ((p.1.1, p.1.2), .plain (nf p.2)))
     (hv1 : ∀ b ∈ d.version, notEol b = true) (hv2 : validUtf8 d.version = true)
-    (hprev : d.trailer.get PREV = none) (henc : d.trailer.has ENCRYPT = false) :
+    (hprev : tr'.get PREV = none) (henc : tr'.has ENCRYPT = false) :
     ∃ L : Loaded, loadDocWith arr out = .ok L ∧ L.version = d.version ∧ L.binaryMark = d.binaryMark ∧
-      L.trailer = d'.trailer ∧ L.xrefStart = (bodyOf [] d).length ∧ L.maxId ≤ d.maxId ∧
-      ∀ id, L.objects.get id = d.objects.get id := by
-  (
-    obtain ⟨table, hget, _, hnodup, hload⟩ :=
-      load_front_of_save_table arr d out d' hk h hlen hmax hwf.gens hD hv1 hv2 hprev henc
-    have hb := body_le_out [] d out d' h
-    -- where the objects stand
-    have hrec0 : Recorded (bodyOf [] d) (xmapOf [] d) d.objects :=
-      writeObjects_recorded d.objects d.objects (hdrOf [] d) []
-        (by intro n off g hg; simp [XrefMap.get] at hg)
-        (fun p hp => Objects_get_of_mem d.objects hwf.nodup p hp)
-        (by unfold bodyOf at hb; omega)
-    have hrec : Recorded out (xmapOf [] d) d.objects := by
-      obtain ⟨hout, _⟩ := saveFrom_table_eq [] d out d' hk h
-      rw [hout]
-      simp only [List.append_assoc]
-      exact Recorded_append _ _ _ _ hrec0
-    -- table entries are exactly the recorded ones
-    have hentry : ∀ k v, (k, v) ∈ table → ∃ off g, v = .normal off g ∧ (xmapOf [] d).get k = some (off, g) := by
-      intro k v hm
-      have h1 := XTable_get_of_mem table hnodup k v hm
-      rw [hget k] at h1
-      split at h1
-      · simp only [normalOf] at h1
-        cases hx : (xmapOf [] d).get k with
-        | none => simp [hx] at h1
-        | some p =>
-          obtain ⟨a, b⟩ := p
-          simp [hx] at h1
-          exact ⟨a, b, h1.symm, rfl⟩
-      · cases h1
-    have hgood : ∀ e ∈ table.sorted, EntryGood out table table.sorted.length d.objects e := by
-      intro e he
-      obtain ⟨k, v⟩ := e
-      rw [mem_sorted table hnodup] at he
-      obtain ⟨off, g, hv, hx⟩ := hentry k v he
-      obtain ⟨hoff, o, hog, hkept, hat⟩ := hrec k off g hx
-      obtain ⟨rest, hrest⟩ := hat
-      refine ⟨off, g, o, hv, hoff, hog, hkept, ?_⟩
-      rw [← hrest]
-      exact hobj ((k, g), o) (Objects_mem_of_get d.objects (k, g) o hog) _ _ _
-    have hfold := loadStep_fold out table table.sorted.length d.objects table.sorted [] hgood
-    have hmaxId : table.maxId ≤ d.maxId := by
-      apply XTable_maxId_le
-      intro p hp
-      have h1 := XTable_mem_get table p.1 p.2 hp
-      rw [hget p.1] at h1
-      split at h1
-      · omega
-      · simp at h1
-    rw [hload]
-    unfold objectPass
-    simp only [hfold, harr, mergeBlocksX_nil]
-    refine ⟨_, rfl, rfl, rfl, rfl, rfl, by simp only; omega, ?_⟩
-    intro id
-    simp only
-    rw [Objects_get_foldr_sorted]
-    refine Eq.trans (Objects_get_map _ _ ?_ id) ?_
-    · intro p
-      obtain ⟨i, lo⟩ := p
-      simp only
-      repeat' split
-      all_goals rfl
-    rw [stepOs_fold_get]
+      L.trailer = tr' ∧ L.xrefStart = (bodyOf [] d).length ∧ L.maxId ≤ d.maxId ∧
+      ∀ id, L.objects.get id = (d.objects.get id).map nf := by
+  obtain ⟨table, hget, _, hnodup, hload⟩ :=
+    load_front_of_save_tableN arr d out d' tr' hk h hlen hmax hwf.gens hD hsz hv1 hv2 hprev henc
+  have hb := body_le_out [] d out d' h
+  have hrec0 : Recorded (bodyOf [] d) (xmapOf [] d) d.objects :=
+    writeObjects_recorded d.objects d.objects (hdrOf [] d) []
+      (by intro n off g hg; simp [XrefMap.get] at hg)
+      (fun p hp => Objects_get_of_mem d.objects hwf.nodup p hp)
+      (by unfold bodyOf at hb; omega)
+  have hrec : Recorded out (xmapOf [] d) d.objects := by
+    obtain ⟨hout, _⟩ := saveFrom_table_eq [] d out d' hk h
+    rw [hout]
+    simp only [List.append_assoc]
+    exact Recorded_append _ _ _ _ hrec0
+  have hentry : ∀ k v, (k, v) ∈ table → ∃ off g, v = .normal off g ∧ (xmapOf [] d).get k = some (off, g) := by
+    intro k v hm
+    have h1 := XTable_get_of_mem table hnodup k v hm
+    rw [hget k] at h1
+    split at h1
+    · simp only [normalOf] at h1
+      cases hx : (xmapOf [] d).get k with
+      | none => simp [hx] at h1
+      | some p =>
+        obtain ⟨a, b⟩ := p
+        simp [hx] at h1
+        exact ⟨a, b, h1.symm, rfl⟩
+    · cases h1
+  have hgood : ∀ e ∈ table.sorted,
+      EntryGood out table table.sorted.length (d.objects.map fun p => (p.1, nf p.2)) e := by
+    intro e he
+    obtain ⟨k, v⟩ := e
+    rw [mem_sorted table hnodup] at he
+    obtain ⟨off, g, hv, hx⟩ := hentry k v he
+    obtain ⟨hoff, o, hog, hkept, hat⟩ := hrec k off g hx
+    obtain ⟨rest, hrest⟩ := hat
+    refine ⟨off, g, nf o, hv, hoff, by rw [Objects_get_mapval, hog]; rfl, hnf o hkept, ?_⟩
+    rw [← hrest]
+    exact hobj ((k, g), o) (Objects_mem_of_get d.objects (k, g) o hog) _ _ _
+  obtain ⟨L, hL, l1, l2, l3, l4, l5, l6⟩ := objectPass_good arr harr out d.version d.binaryMark table tr'
+    (bodyOf [] d).length (d.objects.map fun p => (p.1, nf p.2)) hgood
+  refine ⟨L, by rw [hload]; exact hL, l1, l2, l3, l4, ?_, ?_⟩
+  · rw [l5]
+    apply XTable_maxId_le
+    intro p hp
+    have h1 := XTable_mem_get table p.1 p.2 hp
+    rw [hget p.1] at h1
+    split at h1
+    · omega
+    · simp at h1
+  · intro id
+    rw [l6 id, ← Objects_get_mapval]
     by_cases hany : table.sorted.any (entryIs id) = true
-    · simp only [hany, if_true, Option.map_some]
+    · simp only [hany, if_true]
       rw [List.any_eq_true] at hany
       obtain ⟨e, he, hid⟩ := hany
       obtain ⟨k, v⟩ := e
@@ -339,10 +338,9 @@ theorem load_of_save_table_with (arr : List Block → List Block) (harr : arr []
       obtain ⟨_, o, hog, _, _⟩ := hrec k off g hx
       have : id = (k, g) := Prod.ext hk1.symm hg1.symm
       subst this
-      rw [hog]
-      simp only [Option.getD_some]
-      cases o <;> simp
-    · simp only [hany, Bool.false_eq_true, if_false, LObjects.get, Option.map_none]
+      rw [Objects_get_mapval, hog]; rfl
+    · simp only [hany, Bool.false_eq_true, if_false]
+      rw [Objects_get_mapval]
       cases hd : d.objects.get id with
       | none => rfl
       | some o =>
@@ -361,7 +359,34 @@ theorem load_of_save_table_with (arr : List Block → List Block) (harr : arr []
         rw [List.any_eq_true]
         refine ⟨(id.1, .normal off id.2), ?_, by simp [entryIs]⟩
         rw [mem_sorted table hnodup]
-        exact XTable_mem_of_get table _ _ hg2)
+        exact XTable_mem_of_get table _ _ hg2
+
+/-- **`load ∘ save` (table kind, C01 `file_rt` modulo the object-level round trips).** For every
+well-formed document `d` saved plainly with a classic cross-reference table (file < 4 GiB,
+`max_id + 1 ≤ u32::MAX`, version text without line breaks and valid UTF-8, trailer without
+`Prev` / `Encrypt`), if the trailer dictionary and every object read back at the object level
+(hypotheses `DictReadsBack`, `IndirectReadsBack` — the C01 object theorems), then `Reader::read`
+on the saved bytes succeeds and returns the same version, binary mark and trailer (as `save`
+left it, `Size` included), `xref_start` = the offset the writer stored, `max_id ≤` the old one,
+and for EVERY object id exactly the object the document held (and nothing for other ids). -/
+theorem load_of_save_table_with (arr : List Block → List Block) (harr : arr [] = []) (d : SDoc) (out : Bytes) (d' : SDoc)
+    (hk : d.xrefKind = .table) (h : saveFrom [] d = some (out, d')) (hlen : out.length < 4294967296)
+    (hmax : d.maxId + 1 ≤ 4294967295) (hwf : DocWF d)
+    (hD : DictReadsBack d'.trailer (STARTXREF_KW ++ natDigits (bodyOf [] d).length ++ EOF_KW))
+    (hobj : ∀ p ∈ d.objects, IndirectReadsBack p.1.1 p.1.2 p.2)
+    (hv1 : ∀ b ∈ d.version, notEol b = true) (hv2 : validUtf8 d.version = true)
+    (hprev : d.trailer.get PREV = none) (henc : d.trailer.has ENCRYPT = false) :
+    ∃ L : Loaded, loadDocWith arr out = .ok L ∧ L.version = d.version ∧ L.binaryMark = d.binaryMark ∧
+      L.trailer = d'.trailer ∧ L.xrefStart = (bodyOf [] d).length ∧ L.maxId ≤ d.maxId ∧
+      ∀ id, L.objects.get id = d.objects.get id := by
+  obtain ⟨_, htr⟩ := saveFrom_table_eq [] d out d' hk h
+  have k1 : ¬ SIZE = PREV := by decide
+  have k2 : ¬ SIZE = ENCRYPT := by decide
+  obtain ⟨L, h1, h2, h3, h4, h5, h6, h7⟩ := load_of_save_table_withN arr harr id (fun o ho => ho) d out d' d'.trailer
+    hk h hlen hmax hwf hD (by rw [htr, Dict.get_set_same]; simp) (fun p hp => hobj p hp) hv1 hv2
+    (by rw [htr, Dict_get_set]; simp only [k1, if_false]; exact hprev)
+    (by rw [Dict_has_eq, htr, Dict_get_set]; simp only [k2, if_false]; rw [← Dict_has_eq]; exact henc)
+  exact ⟨L, h1, h2, h3, h4, h5, h6, fun i => by rw [h7 i]; simp⟩
 
 theorem loadDocOrd_arr_nil (order : Option (List Nat)) :
     (match order with | none => (id : List Block → List Block) | some p => fun bs => permuteBlocks bs p) [] = [] := by
